@@ -150,3 +150,76 @@ func VerifC18_Disconnect() {
 	verifAssert("every.line.is.in.the.log", buf.GetLogLength() == n)
 	verifReach("end")
 }
+
+var verifConns []*websocket.Conn
+var verifFirstErrClosed bool
+
+func verifUpgradeN(u *websocket.Upgrader, w http.ResponseWriter, r *http.Request, h http.Header) (*websocket.Conn, error) {
+	c := &websocket.Conn{}
+	verifConns = append(verifConns, c)
+	return c, nil
+}
+
+// the first client is gone when the server writes to it; every later client reads what it is sent
+func verifWriteJSONByConn(c *websocket.Conn, v interface{}) error {
+	if len(verifConns) > 0 && c == verifConns[0] {
+		if verifFirstErrClosed {
+			return net.ErrClosed
+		}
+		return errors.New("write: broken pipe")
+	}
+	// (a request without follow ends with one empty message when its queue is closed: the
+	// end-of-stream write of handleLog, not a log line)
+	if m, ok := v.(*LogMessage); ok && m.ProcessName != "" {
+		verifGot2 = append(verifGot2, m.Message)
+	}
+	return nil
+}
+
+var verifGot2 []string
+
+// C18 / C19 (a log stream after an aborted one): a websocket log client that disappears while the
+// server still has lines for it - the socket write fails - does not harm later clients: the next
+// stream request over the same log is served its window completely.
+func VerifC18_NextClient() {
+	verifStallForever = make(chan struct{})
+	verifConns = nil
+	verifGot2 = nil
+	verifSetGlobal("net", "ErrClosed", errors.New("use of closed network connection"))
+	verifBind("(*github.com/gorilla/websocket.Upgrader).Upgrade", verifUpgradeN)
+	verifBind("(*github.com/gorilla/websocket.Conn).WriteJSON", verifWriteJSONByConn)
+	verifBind("(*github.com/gorilla/websocket.Conn).ReadMessage", verifReadMessage)
+	verifBind("(*github.com/gorilla/websocket.Conn).Close", verifWsClose)
+	verifBind("(*github.com/gin-gonic/gin.Context).Query", verifGinQuery)
+	verifBind("github.com/f1bonacc1/process-compose/src/pclog.GenerateUniqueID", verifUniqueID)
+	follow1 := verifChooseK("first.client.follows", 2) == 1
+	verifFirstErrClosed = verifChooseK("first.write.error.is.ErrClosed", 2) == 1
+	follow2 := verifChooseK("second.client.follows", 2) == 1
+	buf := pclog.NewLogBuffer(1000)
+	buf.Write("l0")
+	buf.Write("l1")
+	prj := &verifLogProject{buf: buf}
+	api := &PcApi{project: prj}
+	q := func(follow bool) map[string]string {
+		f := "false"
+		if follow {
+			f = "true"
+		}
+		return map[string]string{"name": "p", "follow": f, "offset": "2"}
+	}
+	verifQuery = q(follow1)
+	api.HandleLogsStream(&gin.Context{}) // REAL handler, first client: its socket write fails
+	verifQuiesce()
+	verifQuery = q(follow2)
+	api.HandleLogsStream(&gin.Context{}) // REAL handler, second client
+	verifQuiesce()
+	verifAssert("second.client.got.its.window", len(verifGot2) == 2 && verifGot2[0] == "l0" && verifGot2[1] == "l1")
+	if follow2 {
+		buf.Write("l2") // REAL code
+		verifQuiesce()
+		verifAssert("second.client.got.the.later.line", len(verifGot2) == 3 && verifGot2[2] == "l2")
+	}
+	verifReach("end")
+}
+
+func VerifC19_LogStreamAfterAbort() { VerifC18_NextClient() }
